@@ -114,6 +114,70 @@ def gbs_contract():
     return Contract('get_byte_size', match, requires, ensures, setup=setup, props=('C05', 'C07', 'C03'))
 
 
+def _rup(x, a):
+    return (x + bv(a - 1)) & bv(~(a - 1) & ((1 << 64) - 1))
+
+
+def spec_offsets(cx, st, t, xpath):
+    """offset of every field of struct t as docs/encoding.rst assigns it (specs/wire.py: field_offsets), as 64-bit terms
+    over the symbolic state of the C++ object at `xpath` (vector sizes, sizes of nested dynamic structs)"""
+    from vf.cxxvc import CT
+    offs, off = [], bv(0)
+    for i, f in enumerate(t.fields):
+        off = _rup(off, W.A(f.ty))
+        offs.append(off)
+        off = off + _field_size(cx, st, f, xpath)
+        if W.is_dynamic_field(f.ty):
+            off = _rup(off, W.blk(t, i))
+    return offs, _rup(off, W.A(t))
+
+
+def _field_size(cx, st, f, xpath):
+    from vf.cxxvc import CT
+    ty = f.ty
+    path = '%s.%s' % (xpath, f.name)
+    if f.sizer_of:
+        return bv(ty.size)
+    if isinstance(ty, (W.Int, W.Float, W.Enum)):
+        return bv(W.S(ty))
+    if isinstance(ty, W.Optional):
+        return bv(W.S(ty))
+    if isinstance(ty, W.Union):
+        return bv(W.S(ty))
+    if isinstance(ty, W.Struct):
+        if W.stiff(ty) == 0:
+            return bv(W.S(ty))
+        return cx.gbs_of(st, CObj(path, CT('obj', name='prophy::generated::' + ty.name)))
+    if isinstance(ty, W.Bytes):
+        if ty.mode in (W.FIXED, W.LIMITED):
+            return bv(ty.n)
+        return cx.vec_size(st, path)
+    if isinstance(ty, W.Array):
+        es = W.S(ty.elem) if W.stiff(ty.elem) == 0 else None
+        if ty.mode in (W.FIXED, W.LIMITED):
+            return bv(ty.n * es)
+        n = cx.vec_size(st, path)
+        if es is not None:
+            return n * bv(es)
+        return cx.sumsize(st, path, n)
+    raise OutOfReach('field type %r' % (ty,))
+
+
+def layout_obligations(cx, st, trace, t, pos0, xpath='x'):
+    """the k-th member call of a generated struct codec happens with the cursor at pos0 + (documented offset of the
+    k-th field); a complete run makes exactly one member call per field"""
+    if not isinstance(t, W.Struct):
+        return []
+    offs, total = spec_offsets(cx, st, t, xpath)
+    out = []
+    for k, (name, cur) in enumerate(trace):
+        if k >= len(offs):
+            out.append(('layout.count', z3.BoolVal(False)))
+            break
+        out.append(('layout.field%d.%s' % (k, t.fields[k].name), cur == pos0 + offs[k]))
+    return out
+
+
 def all_contracts(restrict_sizers=True):
     cs = []
     for c in H.all_contracts():
@@ -121,8 +185,17 @@ def all_contracts(restrict_sizers=True):
             continue
         c.verify = False            # header functions are verified on the header driver, used here by contract
         cs.append(c)
-    dec = H.gen_decode_contract()
-    dec.verify = True
+    base_dec = H.gen_decode_contract()
+
+    def dec_ensures(cx, s0, a0, s1, a1, ret):
+        r = base_dec.ensures(cx, s0, a0, s1, a1, ret)
+        if cx.current and cx.current[2] is a0['__fn']:
+            info = cx.type_info(a0['x'].ct)
+            r += layout_obligations(cx, s1, s1.trace, info['schema'], a0['pos'].addr)
+        return r
+
+    dec = Contract(base_dec.name, base_dec.match, base_dec.requires, dec_ensures, modifies=('x', 'pos'), setup=H.setup_read,
+                   props=('C07', 'C03'), params=('x', 'pos', 'end'))
     enc = gen_encode_contract(restrict_sizers)
     return [dec, enc, gbs_contract()] + cs
 
@@ -138,7 +211,18 @@ def gen_encode_contract(restrict_sizers=True):
                 r.append(('sizer.range.%s' % arr, z3.ULE(cx.vec_size(st, 'x.' + arr), bv(hi))))
         return r
 
+    def ensures(cx, s0, a0, s1, a1, ret):
+        r = base.ensures(cx, s0, a0, s1, a1, ret)
+        if cx.current and cx.current[2] is a0['__fn'] and restrict_sizers:
+            t = cx.type_info(a0['x'].ct)['schema']
+            if isinstance(t, W.Struct):
+                r += layout_obligations(cx, s1, s1.trace, t, a0['pos'].addr)
+                r.append(('layout.complete', z3.BoolVal(len(s1.trace) == len(t.fields))))
+                offs, total = spec_offsets(cx, s1, t, 'x')
+                r.append(('layout.total', ret.addr == a0['pos'].addr + total))
+        return r
+
     name = 'message_impl::encode' if restrict_sizers else 'message_impl::encode[any array length]'
-    c = Contract(name, base.match, requires, base.ensures, modifies=('mem',), setup=H.setup_write, props=('C05', 'C03'),
+    c = Contract(name, base.match, requires, ensures, modifies=('mem',), setup=H.setup_write, props=('C05', 'C03'),
                  params=('x', 'pos'))
     return c
